@@ -1,5 +1,5 @@
 import Driver.Syntax
-import Pcore.Model.Print
+import Pcore.Model.Types
 /-!
 Driver ops for C05 (syntax in harness/c05):
   quote <xS> | rxquote <xS> | rt-str <xS> | rt-rx <xS> <compiles t|f> (<xBADRX>*) | rt-int <N>
@@ -71,6 +71,19 @@ def exec : List Sexp → String
     | some x, some bl =>
       let text := printVal x
       strHex text ++ " rt=" ++ boolStr (parsesTo (mkEnv bl) text (fun e => Expr.beq e (exprOf x)))
+    | _, _ => "bad-op"
+  | [.atom "rt-type", tx, bad] =>
+    match tx.bytes?, badList bad with
+    | some bs, some bl =>
+      let env := mkEnv bl
+      match parseType env (decodeUtf8 bs) with
+      | none => "unmodelled"
+      | some t =>
+        let s := printTy t
+        let ok := match parseType env (syms s) with
+          | some t2 => Ty.beq t2 t && printTy t2 == s
+          | none => false
+        strHex s ++ " rt=" ++ boolStr ok
     | _, _ => "bad-op"
   | [.atom "rt-int", n] =>
     match n.int? with
